@@ -235,6 +235,9 @@ EvalE(e, st) ==
          LET l == EvalE(e.l, st) IN IF l.k # "ok" THEN NoUnk(l) ELSE
          IF l.v.t # "rec" THEN (IF l.v.t = "nil" THEN Ok(Nil, l.st) ELSE Err(l.st))
          ELSE IF e.n \in DOMAIN l.v.f THEN Ok(l.v.f[e.n], l.st) ELSE Err(l.st)
+    [] e.t = "mcall" ->                                \* method call on a struct value (value or pointer receiver)
+         LET l == EvalE(e.l, st) IN IF l.k # "ok" THEN NoUnk(l) ELSE
+         IF l.v.t = "rec" /\ e.n \in DOMAIN l.v.m THEN Ok(l.v.m[e.n], l.st) ELSE Err(l.st)
     [] e.t = "fn"   -> Ok(Fn(e.ps, e.body), st)
     [] e.t = "assign" ->
          LET r == EvalE(e.e, st) IN IF r.k # "ok" THEN NoUnk(r) ELSE
